@@ -140,6 +140,16 @@ CHECKS["C13"] = {
     "design_ref": "§7 C13",
 }
 
+CHECKS["C12"] = {
+    "category": "model_checking",
+    "technique": "TLA+ Handshake.tla (Dolev-Yao style adversary, Auth checked by TLC) and Pool.tla; their case tables / operation sequences replayed on the real handshakes over real noise sessions and on the real PoolWatch (T2)",
+    "text": "Auth is checked on the specification for every adversary message; every message class (claimed key, session, chain, signer) is then put on a real "
+            "encrypted loopback session against the real gossip and validator handshakes (incl. validator pool admission) and the verdict and attributed key "
+            "compared; pool sequences are exhaustive for 5 operations plus a concurrent stress.",
+    "note": "Signature unforgeability and session-id uniqueness assumed (the latter is the noise transcript hash); malformed/unsigned frames are covered by C10, not here; pool thread interleavings not controlled.",
+    "design_ref": "§7 C12",
+}
+
 NOT_YET = "check not built yet (construction in progress; see DESIGN.md §11 build order)"
 NA_REASONS = {}
 
